@@ -21,7 +21,15 @@ def run_child(job, hashseed):
         os.rmdir(d)
 
 
-def sig_inprocess(ds, cfg, what):
+def apply_edits(obj, edits):
+    for e in edits or []:
+        if e[0] in obj.features:
+            with warnings.catch_warnings():
+                warnings.simplefilter("ignore")
+                obj.update_discretizer(*e)
+
+
+def sig_inprocess(ds, cfg, what, edits=None, want_obj=False):
     """n_jobs=1, in this process"""
     out = {"error": None, "features": {}}
     try:
@@ -29,6 +37,9 @@ def sig_inprocess(ds, cfg, what):
             obj = fitgen.fit_carver(ds, cfg)
         else:
             obj = fitgen.fit_discretizer("Discretizer", ds, cfg)
+        if want_obj:
+            return obj
+        apply_edits(obj, edits)
         with warnings.catch_warnings():
             warnings.simplefilter("ignore")
             Xt = obj.transform(ds["X"])
@@ -134,6 +145,29 @@ def check_case(rng, r, stats, tier):
         v = run_child({"ds": ds, "cfg": cfg, "what": what, "n_jobs": nj, "slow_feature": slow}, 0)
         stats["children"] += 1
         compare(base, v, allf, f"n_jobs={nj} (first quantitative feature forced to finish last)", fails)
+    # (e) manual edits (update_discretizer) and then transform: n_jobs=2 (the fitted orders travel to the workers) vs n_jobs=1
+    if base["error"] is None and rng.random() < 0.4:
+        from . import c17
+        try:
+            probe = sig_inprocess(ds, cfg, what, want_obj=True)
+        except Exception:
+            probe = None
+        edits = []
+        if probe is not None and probe.features:
+            for _ in range(rng.randint(1, 3)):
+                e = c17.gen_edit(rng, probe)
+                if e is None:
+                    continue
+                try:
+                    apply_edits(probe, [e]); edits.append(e)
+                except Exception:
+                    break
+        if edits:
+            b2 = sig_inprocess(ds, cfg, what, edits=edits)
+            v2 = run_child({"ds": ds, "cfg": cfg, "what": what, "n_jobs": 2, "edits": edits}, 0)
+            stats["fits"] += 2; stats["children"] += 1; stats["edited"] = stats.get("edited", 0) + 1
+            compare(b2, v2, allf, "after update_discretizer edits: transform with n_jobs=2 vs n_jobs=1", fails,
+                    edits=[[e[0], e[1], c17.arg_wire(e[2]), c17.arg_wire(e[3])] for e in edits])
     return fails
 
 
